@@ -78,7 +78,10 @@ def rand_scene(rng, size='tiny', name=''):
     elif order < 0.3:
         rng.shuffle(rows)
     prms = rand_prms(rng, ceilos, [b[0] for b in bands])
-    return {'family': 'R-' + size, 'name': name, 'rows': rows, 'prms': prms, 'indomain': True}
+    out = {'family': 'R-' + size, 'name': name, 'rows': rows, 'prms': prms, 'indomain': True}
+    if rng.random() < 0.3:
+        out['index'] = rng.choice(['perceilo', 'perceilo', 'const', 'shuffled', 'offset', 'str', 'float'])
+    return out
 
 
 def rand_scenes(seed, n, size, tag='R'):
